@@ -331,7 +331,7 @@ def eval_cases(tag, imports, rtype, eqb, pairs, shard=300, extra_defs=""):
             if body.strip() == "[]":
                 continue
             found = 0
-            for mm in re.finditer(r"\((\d+)(?:%nat)?,\s*(.*?)\)(?=;\s*\(\d+(?:%nat)?,|\s*\]$)", body):
+            for mm in re.finditer(r"\(\s*(\d+)(?:%nat)?,\s*(.*?)\)(?=;\s*\(\s*\d+(?:%nat)?,|\s*\]$)", body):
                 mism[int(mm.group(1))] = re.sub(r"\s+", " ", mm.group(2))
                 found += 1
             if found == 0:
